@@ -21,8 +21,9 @@ Rank(k) == CASE k = "posonly" -> 1 [] k = "pos" -> 2 [] k = "vararg" -> 3 [] k =
 CallableKinds == {"function", "method", "static", "classmethod", "ctor"}
 \* "starmethod": an instance method written without a named receiver (its first parameter is the star-args parameter): Python passes
 \* the instance as args[0], the parameter list has no implicit receiver to remove
-CkCode(c) == CASE c = "function" -> 0 [] c = "method" -> 1 [] c = "static" -> 2 [] c = "classmethod" -> 3 [] c = "ctor" -> 4 [] c = "starmethod" -> 5 [] c = "starctor" -> 6
-HasReceiver(c) == c \in {"method", "classmethod", "ctor"}
+\* "newmethod": def __new__(cls, ...) - Python passes the class implicitly although the method carries no decorator
+CkCode(c) == CASE c = "function" -> 0 [] c = "method" -> 1 [] c = "static" -> 2 [] c = "classmethod" -> 3 [] c = "ctor" -> 4 [] c = "starmethod" -> 5 [] c = "starctor" -> 6 [] c = "newmethod" -> 7
+HasReceiver(c) == c \in {"method", "classmethod", "ctor", "newmethod"}
 
 (* Literal defaults: Python source text, literal type, canonical value (Python value semantics, B.7). *)
 Lits == <<
@@ -79,6 +80,8 @@ Universe ==
   \cup
   UNION { { Scenario(n, sd, ck, ann, FALSE) : sd \in { x \in Shapes(n) : x[1][1] = "vararg" }, ann \in BOOLEAN, ck \in {"starmethod", "starctor"} } : n \in 1..MaxP }   \* starctor: a constructor without a named receiver
   \cup
+  UNION { { Scenario(n, sd, "newmethod", ann, FALSE) : sd \in Shapes(n), ann \in BOOLEAN } : n \in 0..2 }
+  \cup
   UNION { { Scenario(n, sd, ck, TRUE, TRUE) :
               sd \in { x \in Shapes(n) : x[1][1] \in {"posonly", "pos"} }, ck \in {"function", "static"} } : n \in 1..MaxP }
 
@@ -87,7 +90,7 @@ Universe ==
 (***************************************************************************)
 AssignedBy(k) == CASE k = "posonly" -> "POSITION_ONLY" [] k = "pos" -> "POSITION_OR_NAME"
                    [] k = "vararg" -> "POSITIONAL_VARARG" [] k = "kwonly" -> "NAME_ONLY" [] k = "kwarg" -> "NAMED_VARARG"
-ReceiverName(ck) == IF ck = "classmethod" THEN "cls" ELSE "self"
+ReceiverName(ck) == IF ck \in {"classmethod", "newmethod"} THEN "cls" ELSE "self"
 
 DefaultOf(p) == IF p.lit = 0 THEN NoDefault ELSE [t |-> Lits[p.lit].t, v |-> Lits[p.lit].v]
 
